@@ -673,7 +673,7 @@ fn ppc_simple(rng: &mut Rng) -> u32 {
         7 => x(40),                                                   // subf
         8 => (31 << 26) | (rt << 21) | (ra << 16) | (202 << 1),       // addze
         9 => (31 << 26) | (rt << 21) | (ra << 16) | ((rng.below(32) as u32) << 11) | (824 << 1), // srawi
-        10 | 11 => (21 << 26) | (rt << 21) | (ra << 16) | ((rng.below(32) as u32) << 11) | ((rng.below(32) as u32) << 6) | ((rng.below(32) as u32) << 1), // rlwinm
+        10 | 11 => (21 << 26) | (rt << 21) | (ra << 16) | ((rng.below(32) as u32) << 11) | ((1 + rng.below(31) as u32) << 6) | ((rng.below(31) as u32) << 1), // rlwinm (mb != 0, me != 31: no alias form)
         12 | 13 => (32 << 26) | (rt << 21) | (PBASE << 16) | (4 * rng.below(16) as u32), // lwz
         14 | 15 => (36 << 26) | (rt << 21) | (PBASE << 16) | (4 * rng.below(16) as u32), // stw
         16 => (34 << 26) | (rt << 21) | (PBASE << 16) | rng.below(64) as u32,            // lbz
